@@ -18,7 +18,8 @@ TEXT = ("Thin claim: the round-trip sentence of C04 (flatten -> diff -> store ->
         "unflatten classify keys with the same predicates and constants, and the identifier field removed by flatten is "
         "the one read adds back; U4 - references are uniquely decodable: every prefix on which unflatten dispatches for a "
         "string value is refused by generate_identifier for user identifiers, generated identifiers hash an injective "
-        "encoding of the path and array descriptor identifiers are an injective function of (owner, key) - three open "
+        "encoding of the path, the path handed down to a field value extends the incoming path by the owner's identifier and the field key, "
+        "and array descriptor identifiers are an injective function of (owner, key) - three open "
         "known findings (F10-F12).")
 TECHNIQUE = 'static analysis over rustc MIR: edge dominance on change tests in update_object/commit, encoder/decoder prefix-table agreement and injectivity of composed identifiers'
 TRUSTED = ["rustc nightly MIR", "effect summaries", "yavomrs returns an empty script for equal sequences"]
